@@ -15,8 +15,13 @@ pub struct Handle { pub id: Ghost<nat> }
 impl Handle {
     pub fn clone(&self) -> (r: Handle) ensures r == *self { Handle { id: self.id } }
 }
-pub struct StrTendril { pub x: u64 }
-pub struct Attribute { pub x: u64 }
+/// text: a sequence of characters (ghost; the algorithms here only pass text on)
+pub struct StrTendril { pub s: Ghost<Seq<char>> }
+impl StrTendril {
+    /// `"..".to_tendril()` (rule R6)
+    #[verifier::external_body]
+    pub fn from_slice(x: &str) -> (r: StrTendril) ensures r.s@ == x@ { unimplemented!() }
+}
 #[verifier::external_body]
 pub fn attrs_clone(a: &Vec<Attribute>) -> (r: Vec<Attribute>) ensures r@ == a@ { unimplemented!() }
 // (tokenizer::Tag and TagKind are the repository's, extracted in the unit; Tag::clone is a derive: ASSUMED to copy)
@@ -28,10 +33,13 @@ impl Cow {
     pub fn msg() -> Cow { unimplemented!() }
 }
 pub enum PushFlag { Push, NoPush }
+#[derive(Clone, Copy)]
 pub struct QualName { pub prefix: Option<u64>, pub ns: Namespace, pub local: LocalName }
 impl QualName {
     pub fn new(prefix: Option<u64>, ns: Namespace, local: LocalName) -> (r: QualName) ensures r == (QualName { prefix, ns, local }) { QualName { prefix, ns, local } }
+    pub fn expanded(&self) -> (r: ExpandedName) ensures r == (ExpandedName { ns: self.ns, local: self.local }) { ExpandedName { ns: self.ns, local: self.local } }
 }
+pub struct Attribute { pub name: QualName, pub value: StrTendril }
 pub enum NodeOrText { AppendNode(Handle), AppendText(StrTendril) }
 pub use NodeOrText::{AppendNode, AppendText};
 /// what the sink is asked to do to the DOM, in order (ASSUMED contract-abiding sink: a log)
@@ -42,6 +50,8 @@ pub enum DomOp {
     AppendBeforeSibling(Handle, NodeOrText),
     AppendBasedOnParent(Handle, Handle, NodeOrText),
     ReparentChildren(Handle, Handle),
+    CreateComment(Handle, Seq<char>),
+    AssociateWithForm(Handle, Handle, Handle, Option<Handle>),
 }
 /// the handle the sink hands out for the k-th element it creates (ASSUMED: a new one each time)
 pub open spec fn fresh_handle(k: nat) -> Handle { Handle { id: Ghost(k) } }
@@ -53,9 +63,13 @@ impl ElemName {
     pub fn ns(&self) -> (r: &Namespace) ensures *r == self.n.ns { &self.n.ns }
     pub fn local_name(&self) -> (r: &LocalName) ensures *r == self.n.local { &self.n.local }
 }
+/// the sink's answer for a MathML annotation-xml element: is it an HTML integration point (encoding text/html or
+/// application/xhtml+xml)
+pub uninterp spec fn annotation_xml_ip(h: Handle) -> bool;
 /// the template contents of a template element (ASSUMED: a function of the handle)
 pub uninterp spec fn template_contents_of(h: Handle) -> Handle;
-pub enum ProcessResult { Done, Other }
+#[derive(PartialEq, Eq, Clone, Copy)]
+pub enum RawKind { Rcdata, Rawtext, ScriptData }
 /// the sink (ASSUMED contract-abiding): names are a function of the handle, same_node is handle identity, pop() and
 /// parse_error() are notifications (logged), created elements are logged with the name and tag they were created for
 pub struct Sink { pub pops: Ghost<Seq<Handle>>, pub errs: Ghost<nat>, pub dom: Ghost<Seq<DomOp>>, pub created: Ghost<nat> }
@@ -64,6 +78,8 @@ impl Sink {
     pub fn elem_name(&self, h: &Handle) -> (r: ElemName) ensures r.n == elem_name_of(*h) { unimplemented!() }
     #[verifier::external_body]
     pub fn get_template_contents(&self, h: &Handle) -> (r: Handle) ensures r == template_contents_of(*h) { unimplemented!() }
+    #[verifier::external_body]
+    pub fn is_mathml_annotation_xml_integration_point(&self, h: &Handle) -> (r: bool) ensures r == annotation_xml_ip(*h) { unimplemented!() }
     #[verifier::external_body]
     pub fn same_node(&self, a: &Handle, b: &Handle) -> (r: bool) ensures r == (*a == *b) { unimplemented!() }
     #[verifier::external_body]
@@ -79,6 +95,15 @@ impl Sink {
     #[verifier::external_body]
     pub fn append_based_on_parent_node(&mut self, element: &Handle, prev_element: &Handle, child: NodeOrText)
         ensures *final(self) == (Sink { dom: Ghost(old(self).dom@.push(DomOp::AppendBasedOnParent(*element, *prev_element, child))), ..*old(self) }) { unimplemented!() }
+    #[verifier::external_body]
+    pub fn create_comment(&mut self, text: StrTendril) -> (r: Handle)
+        ensures r == fresh_handle(old(self).created@),
+                *final(self) == (Sink { created: Ghost(old(self).created@ + 1), dom: Ghost(old(self).dom@.push(DomOp::CreateComment(r, text.s@))), ..*old(self) }),
+    { unimplemented!() }
+    #[verifier::external_body]
+    pub fn associate_with_form(&mut self, target: &Handle, form: &Handle, nodes: (&Handle, Option<&Handle>))
+        ensures *final(self) == (Sink { dom: Ghost(old(self).dom@.push(DomOp::AssociateWithForm(*target, *form, *nodes.0, match nodes.1 { Some(h) => Some(*h), None => None }))), ..*old(self) }),
+    { unimplemented!() }
     #[verifier::external_body]
     pub fn reparent_children(&mut self, node: &Handle, new_parent: &Handle) ensures *final(self) == (Sink { dom: Ghost(old(self).dom@.push(DomOp::ReparentChildren(*node, *new_parent))), ..*old(self) }) { unimplemented!() }
 }
